@@ -363,13 +363,28 @@ pub fn run(run: &Run) -> i32 {
                 }
             }
         }
+        // sizes around the usual chunk sizes (64, 256, 4096, 8192, 65536 elements)
+        let mut big: Vec<(usize, usize)> = vec![(1, 4099), (4099, 1), (3, 2731), (2731, 3), (8, 8192), (64, 64), (63, 65), (360, 45), (5, 13107), (255, 257)];
+        if run.thorough() {
+            big.extend([(1, 70001), (70001, 1), (16, 4097), (257, 255), (2, 32769)]);
+        }
+        for (c, r) in big {
+            for b in [false, true] {
+                items.push(json!({"kind": "interleave", "C": c, "R": r, "backward": b}));
+            }
+        }
+        for (plen, bits) in [(1usize, 1u32), (2, 1), (2, 2), (3, 3), (4, 13), (5, 15), (5, 30)] {
+            for block in if run.thorough() { vec![63usize, 64, 65, 4095, 4096, 4097, 65537] } else { vec![64usize, 4097, 8193] } {
+                items.push(json!({"kind": "puncture", "plen": plen, "bits": bits, "block": block}));
+            }
+        }
         acc = par_items(&items, |it, a| replay_element(it, a));
     }
     finish(
         run,
         acc,
         Coverage {
-            rule: "every (columns C, rows R, backward) with C,R <= bound on identity-valued vectors of i32/f64/u8 and all GF2 bit-planes; every boolean pattern (>=1 true) up to the length bound x every block size; every length 1..30 for the error clause. Enumeration is a duplicate-free product; non-trivial = C>1 and R>1 (interleaver), pattern that really removes a block (puncturer), genuinely indivisible length (error clause).".into(),
+            rule: "every (columns C, rows R, backward) with C,R <= bound on identity-valued vectors of i32/f64/u8 and all GF2 bit-planes; every boolean pattern (>=1 true) up to the length bound x every block size; every length 1..30 for the error clause; plus interleaver shapes and puncturing block sizes around 64, 256, 4096, 8192 (thorough: 65536) elements. Enumeration is a duplicate-free product; non-trivial = C>1 and R>1 (interleaver), pattern that really removes a block (puncturer), genuinely indivisible length (error clause).".into(),
             exhaustive: true,
             extra: serde_json::Map::new(),
             graph: None,
